@@ -30,6 +30,8 @@ func (o Op) String() string {
 		return fmt.Sprintf("put(%q,%q)", o.Name, o.Value)
 	case "delete":
 		return fmt.Sprintf("delete(%q)", o.Name)
+	case "observe":
+		return "read-everything"
 	}
 	return fmt.Sprintf("%s(%q,%d)", o.Kind, o.Name, o.Ver)
 }
